@@ -38,17 +38,21 @@ type Line struct {
 	N string `json:"n"`
 	V string `json:"v"`
 }
+// Deny is one rule of the scripted policy (historical name: with the default "allow" the rules are refusals), or one
+// attributes record in the model's answers (D empty). All five attributes are hex.
 type Deny struct {
+	Grp  string `json:"grp"`
 	Res  string `json:"res"`
 	Sub  string `json:"sub"`
 	Ns   string `json:"ns"`
 	Name string `json:"name"`
-	D    string `json:"d"` // deny | noopinion | error
+	D    string `json:"d"` // allow | deny | noopinion | error
 }
 type Case struct {
 	Token    string    `json:"token"`
 	User     *Ident    `json:"user"` // nil: the authenticator does not recognise the client
 	Client   []Line    `json:"client"`
+	Default  string    `json:"default,omitempty"` // decision for a record no rule names: "" = allow
 	Deny     []Deny    `json:"deny"`
 	Upgrade  bool      `json:"upgrade"`
 	Observed *ObsWire  `json:"observed,omitempty"`
@@ -61,7 +65,8 @@ type modelOut struct {
 	Outcome string `json:"outcome"`
 	Recv    []Line `json:"recv"`
 	CtxUser *Ident `json:"ctxUser"`
-	Calls   []Deny `json:"calls"`
+	Calls    []Deny `json:"calls"`
+	Required []Deny `json:"required"`
 	Expect  struct {
 		Kind      string `json:"kind"`
 		Status    int    `json:"status"`
@@ -112,11 +117,27 @@ func (cs Case) readable() string {
 	for _, l := range cs.Client {
 		ls = append(ls, fmt.Sprintf("%q", rig.UnHex(l.N)+": "+rig.UnHex(l.V)))
 	}
+	dflt := cs.Default
+	if dflt == "" {
+		dflt = "allow"
+	}
 	var dn []string
 	for _, d := range cs.Deny {
-		dn = append(dn, fmt.Sprintf("%s %s/%q ns=%q name=%q", d.D, d.Res, rig.UnHex(d.Sub), rig.UnHex(d.Ns), rig.UnHex(d.Name)))
+		dn = append(dn, fmt.Sprintf("%s %s", d.D, d.readable()))
 	}
-	return fmt.Sprintf("authenticated as %s; client headers [%s]; authorizer refuses [%s]; upgrade=%v", cs.User.readable(), strings.Join(ls, ", "), strings.Join(dn, "; "), cs.Upgrade)
+	return fmt.Sprintf("authenticated as %s; client headers [%s]; policy [%s] else %s; upgrade=%v", cs.User.readable(), strings.Join(ls, ", "), strings.Join(dn, "; "), dflt, cs.Upgrade)
+}
+
+func (d Deny) readable() string {
+	g := rig.UnHex(d.Grp)
+	if g != "" {
+		g += "/"
+	}
+	return fmt.Sprintf("%s%s/%q ns=%q name=%q", g, rig.UnHex(d.Res), rig.UnHex(d.Sub), rig.UnHex(d.Ns), rig.UnHex(d.Name))
+}
+
+func (d Deny) call() AuthzCall {
+	return AuthzCall{Grp: rig.UnHex(d.Grp), Res: rig.UnHex(d.Res), Sub: rig.UnHex(d.Sub), Ns: rig.UnHex(d.Ns), Name: rig.UnHex(d.Name)}
 }
 
 func readableLines(ls []Line) string {
@@ -150,10 +171,18 @@ func canonRecv(ls []Line) string {
 	return b.String()
 }
 
+func callsOf(obs Observed) []Deny {
+	out := []Deny{}
+	for _, a := range obs.Calls {
+		out = append(out, Deny{Grp: rig.Hex(a.Grp), Res: rig.Hex(a.Res), Sub: rig.Hex(a.Sub), Ns: rig.Hex(a.Ns), Name: rig.Hex(a.Name)})
+	}
+	return out
+}
+
 func canonCalls(ds []Deny) string {
 	var l []string
 	for _, d := range ds {
-		l = append(l, d.Res+"/"+d.Sub+"/"+d.Ns+"/"+d.Name)
+		l = append(l, d.readable())
 	}
 	sort.Strings(l)
 	return strings.Join(l, ";")
@@ -177,16 +206,16 @@ type verdict struct {
 // eval runs one case on the real gateway and on the model.
 func eval(c *rig.Ctx, cs Case) (verdict, Observed, modelOut) {
 	cs.Observed = nil
-	deny := map[AuthzCall]string{}
+	policy := Policy{Default: cs.Default}
 	for _, d := range cs.Deny {
-		deny[AuthzCall{Res: d.Res, Sub: rig.UnHex(d.Sub), Ns: rig.UnHex(d.Ns), Name: rig.UnHex(d.Name)}] = d.D
+		policy.Rules = append(policy.Rules, PolicyRule{On: d.call(), D: d.D})
 	}
 	lines := make([]string, len(cs.Client))
 	for i, l := range cs.Client {
 		lines[i] = rig.UnHex(l.N) + ": " + rig.UnHex(l.V)
 	}
 	var obs Observed
-	msg, panicked := rig.Recover(func() { obs = gw.send(cs.User.info(), deny, lines, cs.Upgrade) })
+	msg, panicked := rig.Recover(func() { obs = gw.send(cs.User.info(), policy, lines, cs.Upgrade) })
 	if panicked {
 		return verdict{kind: "diff", class: "c02.harness-panic", what: "harness panicked: " + msg}, obs, modelOut{}
 	}
@@ -218,6 +247,15 @@ func eval(c *rig.Ctx, cs Case) (verdict, Observed, modelOut) {
 			got = readableLines(ow.Upstream[0])
 		}
 		want := fmt.Sprintf("answered by the gateway with %d and not forwarded", m.Expect.Status)
+		if m.Expect.Kind != "forward" && m.Expect.Status == 403 {
+			var refused []string
+			for _, d := range m.Required {
+				if dec := policy.decide(d.call()); dec != "allow" {
+					refused = append(refused, dec+" "+d.readable())
+				}
+			}
+			want += fmt.Sprintf(" (the policy refuses the required record(s) [%s]; the authorizer was asked [%s])", strings.Join(refused, "; "), canonCalls(callsOf(obs)))
+		}
 		if m.Expect.Kind == "forward" {
 			want = "forwarded as exactly " + m.Expect.ID.readable()
 		}
@@ -245,10 +283,7 @@ func eval(c *rig.Ctx, cs Case) (verdict, Observed, modelOut) {
 		return verdict{kind: "diff", class: "c02.received-headers", impl: obs, model: m,
 			what: fmt.Sprintf("upstream received %s, model predicts %s; %s", readableLines(ow.Upstream[0]), readableLines(m.Recv), cs.readable())}, obs, m
 	}
-	implCalls := []Deny{}
-	for _, a := range obs.Calls {
-		implCalls = append(implCalls, Deny{Res: a.Res, Sub: rig.Hex(a.Sub), Ns: rig.Hex(a.Ns), Name: rig.Hex(a.Name)})
-	}
+	implCalls := callsOf(obs)
 	switch m.Outcome {
 	case "forwarded", "transportRefused", "upstreamRefused":
 		if canonCalls(implCalls) != canonCalls(m.Calls) {
@@ -271,7 +306,7 @@ func eval(c *rig.Ctx, cs Case) (verdict, Observed, modelOut) {
 		}
 		if okc {
 			last := obs.Calls[len(obs.Calls)-1]
-			if _, refused := deny[last]; !refused {
+			if policy.decide(last) == "allow" {
 				okc = false
 			}
 		}
@@ -349,6 +384,10 @@ func shrink(c *rig.Ctx, cs Case, v verdict) Case {
 
 var reported = map[string]bool{}
 
+// judge failures and correspondence differences recorded so far: differences are recorded a few times only (the search for an
+// input on which the PROPERTY fails goes on), judge failures stop the run after a few witnesses
+var nJudge, nDiff int
+
 // runCase evaluates, counts and (on failure) shrinks and records one case.
 func runCase(c *rig.Ctx, cs Case, origin string) bool {
 	if cs.Token == "" {
@@ -399,6 +438,15 @@ func runCase(c *rig.Ctx, cs Case, origin string) bool {
 			return true
 		}
 		reported[key] = true
+	}
+	if v.kind == "diff" {
+		nDiff++
+		c.Count("diff:" + v.class)
+		if nDiff > 3 {
+			return false
+		}
+	} else if !allKnown(v.classes) {
+		nJudge++
 	}
 	small := shrink(c, cs, v)
 	w, _, _ := eval(c, small)
@@ -452,7 +500,7 @@ func main() {
 		}
 		escapeSweep(c)
 		n := c.Budget(4000, 80000)
-		for i := 0; i < n && c.NFailures() < 6; i++ {
+		for i := 0; i < n && nJudge < 3; i++ {
 			runCase(c, genCase(c, i), "gen")
 		}
 	})
